@@ -33,7 +33,10 @@ JudgeTransport(e) ==
       "Inv.SurvivesTransport:z" \o ToString(LeadingZeros(e.pi))) \o
   Tag(e.transported = Transport(e.pi), "Transport.bytes") \o
   Tag(Restore(e.transported, PL) = e.pi, "Transport.restore") \o
-  Tag(e.z = LeadingZeros(e.pi), "Transport.z")
+  Tag(e.z = LeadingZeros(e.pi), "Transport.z") \o
+  (* beyond the statement: the helper that turns the header field into the lottery value for the
+     chain's log line (ConsensusHelperImpl.VRFProve2Value) does not pad *)
+  Tag(e.helperValueSame, "Ext.HelperProveValueAfterTransport:z" \o ToString(LeadingZeros(e.pi)))
 
 JudgeMutate(e) == Tag(~e.accepted, "Inv.MutationRejected:" \o e.part)
 
@@ -56,8 +59,31 @@ JudgeValidate(e) ==
           "Inv.QnRange:" \o (IF JustBelow(num, den, mq) THEN "justBelowThreshold" ELSE "general")) \o
       Tag(e.ok => QnAdmissible(e.qn, v, S, W, active, Max256, mq), "Qn.exact")
 
+(* a proof is a value: generating other proofs later (other key, other message, this or another
+   goroutine) changes nothing about it -- it still verifies for its key and message and for no other,
+   survives the header transport, and carries the lottery output it carried when it was made *)
+JudgeRetain(e) ==
+  Tag(e.verifyKept, "Inv.Complete:retained/" \o e.kind) \o
+  Tag(e.transportKept, "Inv.SurvivesTransport:retained/" \o e.kind) \o
+  Tag(e.bytesSame /\ e.outputSame, "Inv.Deterministic:retained/" \o e.kind) \o
+  Tag(~e.verifiesForLatest, "Inv.VerifiesOnlyItsMessage:retained/" \o e.kind)
+
+(* provers running at the same time each obtain the proof they obtain alone, and it verifies *)
+JudgeConcurrent(e) ==
+  Tag(e.mismatches = 0, "Inv.Deterministic:concurrent") \o
+  Tag(e.verifyFailures = 0, "Inv.Complete:concurrent")
+
+(* beyond the statement: proposer (height of the block built on) and verifier (height of the proposed
+   block) evaluate the same rule with different height arguments *)
+JudgeBoundary(e) ==
+  Tag(e.verifierAccepts, "Ext.ProverAndVerifierAgree:activationHeight") \o
+  Tag(e.controlProverOk => e.controlVerifierAccepts, "Ext.ProverAndVerifierAgree:pastActivation")
+
 Judge(e) ==
   CASE e.event = "VrfCase"       -> <<>>
+    [] e.event = "Retain"        -> JudgeRetain(e)
+    [] e.event = "Concurrent"    -> JudgeConcurrent(e)
+    [] e.event = "Boundary"      -> JudgeBoundary(e)
     [] e.event = "Prove"         -> JudgeProve(e)
     [] e.event = "Transport"     -> JudgeTransport(e)
     [] e.event = "Mutate"        -> JudgeMutate(e)
